@@ -197,8 +197,8 @@ func runGeom(fs *flag.FlagSet, prop string, seed uint64, n int, outDir, file str
 		if inShard == 0 {
 			return
 		}
-		src := "From Autog Require Import Geom.\nDefinition q (n : Z) (d : positive) : Q := Qmake n d.\nDefinition gcases : list (nat * geom_case) := [\n" +
-			shard.String() + "].\nDefinition G := Eval vm_compute in geom_failing gcases.\nPrint G.\n"
+		src := "From Autog Require Import GeomCheck.\nDefinition q (n : Z) (d : positive) : Q := Qmake n d.\nDefinition gcases : list (nat * geom_case) := [\n" +
+			shard.String() + "].\nDefinition G := Eval vm_compute in geom_failing gcases.\nPrint G.\nDefinition H := Eval vm_compute in geom_cert_failing gcases.\nPrint H.\n"
 		os.WriteFile(fmt.Sprintf("%s/geom_%03d.v", outDir, nshard), []byte(src), 0o644)
 		nshard++
 		inShard = 0
